@@ -28,6 +28,10 @@ for s in $seeds; do
   [ "$s" = "C10-g" ] && ids=C06
   [ "$s" = "C16-g" ] && ids=C10
   [ "$s" = "C18-g" ] && ids=C17
+  [ "$s" = "C02-h" ] && ids=C01
+  [ "$s" = "C05-h" ] && ids=C06
+  [ "$s" = "C13-h" ] && ids=C12
+  [ "$s" = "C18-h" ] && ids=C17
   if grep -q '"retired"' /verif/seeded/$s/meta.json; then echo "$s: retired (see meta.json)"; continue; fi
   git -C $WT checkout -q -- . ; git -C $WT clean -fdq
   if ! git -C $WT apply /verif/seeded/$s/patch.diff 2>/dev/null; then echo "$s: PATCH DOES NOT APPLY"; miss=$((miss+1)); continue; fi
